@@ -262,6 +262,7 @@ func c07Oracle(c *vkit.Check, known *c07Dropped, cs c07Case, round int, offerTex
 
 func c07API(t *testing.T, engine string) *API {
 	return vNewAPI(t, vAPIOpts{
+		virtualNet: true,
 		media: func(m *MediaEngine) error {
 			if engine == "audio-only" {
 				return m.RegisterCodec(RTPCodecParameters{
